@@ -169,7 +169,10 @@ class Fwd:
         self.callee, self.hard_pos, self.hard_kw, self.prelude, self.star_args = callee, list(hard_pos), list(hard_kw), list(prelude), star_args
 
     def expr(self, kw, spread=None):
-        args = list(self.hard_pos) + (["*args"] if self.star_args else []) + [f"{k}={v}" for k, v in self.hard_kw] + ["**" + (spread or kw)]
+        hard = [f"{k}={v}" for k, v in self.hard_kw]
+        spread_arg = ["**" + (spread or kw)]
+        # `f(a=1, **kw)` and `f(**kw, a=1)` are the same call
+        args = list(self.hard_pos) + (["*args"] if self.star_args else []) + (spread_arg + hard if getattr(self, "kw_late", False) else hard + spread_arg)
         return f"{self.callee}({', '.join(args)})"
 
 
@@ -575,7 +578,7 @@ def pick_hard_kw(target, which=0):
     return cands[which % len(cands)] if cands else None
 
 
-LINKS = ["plain", "hardkw", "hardpos", "shadow", "popb", "getb", "star", "hardreq"]
+LINKS = ["plain", "hardkw", "hardkwlate", "hardpos", "shadow", "popb", "getb", "star", "hardreq"]
 CLASS_LINKS = LINKS + ["super2", "noinit", "nokw", "unused", "popdeep"]
 
 
@@ -607,11 +610,11 @@ def make_pops(prog, link, level, target):
 def link_args(prog, link, target, level):
     """-> (hard_pos, hard_kw, star_args, shadow names) for a forwarding call to `target`."""
     hard_pos, hard_kw, star, shadow = [], [], False, None
-    if link == "hardkw":
+    if link in ("hardkw", "hardkwlate"):
         p = pick_hard_kw(target, level)
         if p is not None:
             hard_kw = [(p.name, p.dflt if not p.required else repr(p.want))]
-            prog.tags[p.name] = prog.tags[p.name] + f"+L{level}.hardkw"
+            prog.tags[p.name] = prog.tags[p.name] + f"+L{level}.{link}"
     elif link == "hardreq":
         req = [p for p in target.reach if p.required]
         if req:
@@ -647,6 +650,7 @@ def emit_fn_over(prog, target, link, layout, level, callee=None, prelude=()):
     name = prog.uname("fn")
     kw = ["kwargs", "kw", "kwds"][level % 3]
     f = Fwd(callee or target.call_src, hard_pos, hard_kw, prelude, star)
+    f.kw_late = link == "hardkwlate"
     prog.lines += emit_fn(prog, name, ps, kw, pops, ("fwd", f), star_args=star) + ["", ""]
     gone = {k for k, _ in hard_kw} | ({target.own[0].name} if hard_pos else set()) | {p.name for p in ps}
     return Unit(name, "fn", ps, ps + [p for p in target.reach if p.name not in gone])
@@ -692,6 +696,7 @@ def emit_class_over(prog, base, link, layout, level, below=None):
         reach = list(ps)
     else:
         f = Fwd(callee, hard_pos, hard_kw, (), star)
+        f.kw_late = link == "hardkwlate"
         lines = emit_fn(prog, "__init__", ps, kw, pops, ("fwd", f), star_args=star, indent="    ", first="self", where=where)
         gone = {k for k, _ in hard_kw} | ({target.own[0].name} if hard_pos else set()) | {p.name for p in ps} | {p[1] for p in pops}
         reach = ps + [p for p in target.reach if p.name not in gone]
@@ -810,7 +815,7 @@ def gen_programs(h):
                 yield p
 
     # ---- C: multiple inheritance
-    for variant in ["coop", "left-noncoop", "right-noinit", "left-hardkw", "skip-left", "mixin-first", "two-roots", "left-popb"]:
+    for variant in ["coop", "left-noncoop", "right-noinit", "left-hardkw", "skip-left", "mixin-first", "two-roots", "left-popb", "left-noinit-right-hardkw", "left-noinit-right-hardpos"]:
         for lays in lay_cycles[:2] if not h.thorough else lay_cycles:
             p = new_prog(counter, f"mi:{variant}:{'+'.join(lays)}")
             p.top = (diamond(p, variant, lays), None)
@@ -935,6 +940,8 @@ def diamond(prog, variant, lays):
     if variant == "right-noinit":
         emit_class(prog, "Right", ["Root"], [])
         right = Unit("Right", "init", [], list(root.reach))
+    elif variant in ("left-noinit-right-hardkw", "left-noinit-right-hardpos"):
+        right = emit_named_over(prog, "Right", "Root", root, variant.rsplit("-", 1)[1], "d", 1)
     elif variant == "two-roots":
         right = other
         right.name = "Other"
@@ -946,6 +953,10 @@ def diamond(prog, variant, lays):
         ps = own(prog, "d", 1)
         emit_class(prog, "Left", ["Root"], emit_fn(prog, "__init__", ps, None, [], None, indent="    ", first="self", where="Left.__init__"))
         left = Unit("Left", "init", ps, list(ps))
+    elif variant.startswith("left-noinit"):
+        # Left merely inherits Root's __init__; inside Top its successor is Right, which is not one of Left's ancestors
+        emit_class(prog, "Left", ["Root"], ["    def _helper(self):", "        return 1"])
+        left = Unit("Left", "init", [], list(root.reach))
     elif variant == "mixin-first":
         emit_class(prog, "Left", [], ["    def _helper(self):", "        return 1"])
         left = Unit("Left", "init", [], [])
@@ -967,6 +978,7 @@ def emit_named_over(prog, name, base_name, base, link, layout, level, reach_extr
     ps = own(prog, layout, level)
     pops = make_pops(prog, link, level, base)
     f = Fwd("super().__init__", hard_pos, hard_kw, (), star)
+    f.kw_late = link == "hardkwlate"
     emit_class(prog, name, [base_name], emit_fn(prog, "__init__", ps, "kwargs", pops, ("fwd", f), indent="    ", first="self", where=f"{name}.__init__"))
     return Unit(name, "init", ps, ps + list(reach_extra) + list(base.reach))
 
